@@ -96,7 +96,15 @@ def vh_stage(engine, quick=4, thorough=16, extra=(), timeout_q=1500, timeout_t=7
                     env["VH_CASE_LIMIT_S"] = str(case_limit * factor + 60)
                     running, rc2 = stacksig.still_running_after(replay_cmd(inc["case"]), env, outdir, case_limit * factor)
                     if running:
-                        sig, why = stacksig.hang_signature(replay_cmd(inc["case"]), env, outdir)
+                        sig, why = None, None
+                        for _attempt in range(3):
+                            sig, why = stacksig.hang_signature(replay_cmd(inc["case"]), env, outdir)
+                            if sig is not None:
+                                break
+                        if sig is None:
+                            # the run does not end, but the stack could not be sampled (gdb saw no frames of the crate): without a
+                            # signature the hang can be told neither from a listed one nor from a new one -> inconclusive, not a verdict
+                            return ("incon", {"kind": "hang_without_signature", "case": inc["case"], "note": why})
                         return ("viol", {"kind": "does_not_terminate", "engine": engine, "sig": sig, "case": inc["case"], "note": f"still running after {case_limit * factor}s alone; {why or ''}"})
                 return ("incon", {"kind": "watchdog_time", "case": inc["case"]})
             if inc["rc"] == 87:
